@@ -25,8 +25,11 @@ SPEC = {
         "in-process fake upstreams (bound-but-not-listening socket = refused, handler that never answers = timeout, RST on accept, "
         "status x body combinations) vs Model.Failover: answering upstream, payload marker, error class, IsUnavailableError, "
         "strict flag, per-upstream request counts (client RoundTrips and server side), severity of the problem a real online check emits; "
-        "a second identical call on the same group (cache / unsupported-API client state); a sample of the assignments additionally "
-        "through the real pint binary configured by .pint.hcl (uri, failover, timeout, required) with one online check enabled",
+        "a second call on the same group (cache / unsupported-API client state), with unchanged behaviour or after the upstreams changed "
+        "their HTTP-level behaviour in between (fault sequences: recovery, new failure); range queries use a fixed 2h-aligned window so both "
+        "calls have the same cache keys, over one slice and over three slices, with the fault on every slice or on one slice only; "
+        "a sample of the assignments additionally through the real pint binary configured by .pint.hcl (uri, failover, timeout, required) "
+        "with one online check enabled",
         "modelled not verified: control flow of querier.Run / stream decoders / processJob / the loops and of the five checks' error "
         "handling is hand-modelled; net/http, encoding/json + prymitive/current (body -> decodable/undecodable is an input), "
         "yaml.v3, errors.As/Is chain walking are trusted",
@@ -35,7 +38,9 @@ SPEC = {
     "assumptions": [
         "a body is classified by the harness as undecodable (empty / text / truncated JSON) or as JSON with status/errorType/error; "
         "the JSON stream decoder is not modelled",
-        "one request per upstream per call: range queries are exercised with a window that needs a single slice",
+        "multi-slice range queries: which failing slice's error is reported and how many slices are requested before cancellation depend on the "
+        "schedule; the model treats a multi-slice upstream as a one-slice upstream sending the failing slice's response (theorem "
+        "C15_range_slices_collapse justifies this for every schedule) and per-upstream request counts of multi-slice calls are compared as 0 / at least 1",
         "the property's 404 clause is read per DESIGN 6/C15: on config/flags/metadata a 404 marks the API unsupported and failover continues",
     ],
 }
@@ -53,13 +58,17 @@ MANIFEST = {
             "(induction on the server list); the loop continues exactly on transport errors, 5xx without a JSON error, JSON "
             "server_error (and 404 of a status API), so bad_data/execution/4xx/404-on-query/truncated bodies are returned as is; "
             "when every upstream is unavailable the online check emits exactly one `unable to run checks` problem of severity "
-            "Warning, Bug iff the server is required. The classification tables are regenerated from the Go AST on every run; "
+            "Warning, Bug iff the server is required; errors leave no trace in the client state, so an upstream that recovers between "
+            "two identical requests answers again at once (not the cached answer of a later upstream, not a replayed error); a range "
+            "query cut into slices behaves, for every schedule, like a one-slice query sending one of the slices' responses (a failing "
+            "one if any fails). The classification tables are regenerated from the Go AST on every run; "
             "the model is compared with the real client on an enumeration of the nine fault modes x up to three upstreams x five "
             "endpoints (quick: all assignments in which every upstream is reached + a sample; thorough: all 4095) plus 29 extra "
-            "status/body modes, using in-process fake upstreams and a real online check per endpoint.",
+            "status/body modes, fault sequences (second call after a behaviour change) and three-slice range queries with a fault on one "
+            "slice, using in-process fake upstreams and a real online check per endpoint.",
     "note": "Coq 8.16.1 kernel+VM, no axioms; translator trusted for table extraction; Run/stream/processJob/loop control flow "
             "hand-modelled and validated by differential execution against the real HTTP client; net/http, JSON stream decoder, "
-            "yaml and errors.As/Is trusted; range queries exercised with a single slice.",
+            "yaml and errors.As/Is trusted; slice scheduling of multi-slice range queries abstracted (any failing slice may win).",
     "technique": "Coq theorems by induction on the server list + AST-generated classification tables + exhaustive differential "
                  "correspondence with in-process fake upstreams",
 }
